@@ -1,7 +1,8 @@
 /-
-Helper lemmas for C07, part 4: one assignment on a world whose watchers are `Installed`.
+Helper lemmas for C07, part 4: reading lemmas, the store, typing, graph preservation, what every spec
+says about the watcher on one of its holders, one watcher invocation on an installed world.
 -/
-import ParamVerif.Depends.PathsLemmas
+import ParamVerif.Depends.PathsGroups
 
 namespace ParamVerif.Depends
 
@@ -147,6 +148,49 @@ theorem pathReads_fst (w : PWorld) : ∀ (path : List Name) (cur : Oid),
         | int i => rw [hg] at h; cases h
         | ref o => rw [hg] at h; exact ih o h
 
+theorem chain_noref (w w' : PWorld) : ∀ (path : List Name) (v : Val), (∀ o, v ≠ .ref o) →
+    chain w' v path = chain w v path := by
+  intro path
+  induction path with
+  | nil => intro v _; rfl
+  | cons n rest ih =>
+    intro v hv
+    have h1 : ∀ u : PWorld, attrOr u v n = .none := by
+      intro u; cases v with
+      | none => rfl
+      | int i => rfl
+      | ref o => exact absurd rfl (hv o)
+    simp only [chain, h1]
+    congr 1
+    exact ih .none (fun o => by simp)
+
+theorem chain_agree (w w' : PWorld) : ∀ (path : List Name) (cur : Oid), AgreeOn w w' (pathReads w cur path) →
+    chain w' (.ref cur) path = chain w (.ref cur) path := by
+  intro path
+  induction path with
+  | nil => intro cur _; rfl
+  | cons n rest ih =>
+    intro cur h
+    have h0 : getParam w' cur n = getParam w cur n := h (cur, n) (by simp [pathReads])
+    have hattr : attrOr w' (.ref cur) n = attrOr w (.ref cur) n := by simp [attrOr, h0]
+    simp only [chain, hattr]
+    congr 1
+    cases hg : getParam w cur n with
+    | none =>
+      simp only [attrOr, hg, Option.getD_none]
+      exact chain_noref w w' rest .none (fun o => by simp)
+    | some v =>
+      cases v with
+      | none =>
+        simp only [attrOr, hg, Option.getD_some]
+        exact chain_noref w w' rest .none (fun o => by simp)
+      | int i =>
+        simp only [attrOr, hg, Option.getD_some]
+        exact chain_noref w w' rest (.int i) (fun o => by simp)
+      | ref o =>
+        simp only [attrOr, hg, Option.getD_some]
+        exact ih o (fun r hr => h r (by simp only [pathReads, hg]; exact List.mem_cons_of_mem _ hr))
+
 /-! ### the store -/
 
 def store (w : PWorld) (o : Oid) (ob : PObj) (p : Name) (v : Val) : PWorld :=
@@ -205,7 +249,7 @@ theorem classOf_store (w : PWorld) (o : Oid) (ob : PObj) (p : Name) (v : Val) (h
 theorem setParam_ok {w w' : PWorld} {o : Oid} {p : Name} {v : Val} (h : setParam w o p v = .ok w') :
     ∃ ob c old w2, w.objs[o]? = some ob ∧ classOf w o = some c ∧ p ≠ "name" ∧ accepts w c p v = true ∧
       lookupVal ob.vals p = some old ∧ updateDeps (store w o ob p v) o (some p) false = .ok w2 ∧
-      dispatchP w2 old v (w2.watchers.filter (fun x => x.on = o && x.params.contains p)) = .ok w' := by
+      dispatchP w2 p old v (w2.watchers.filter (fun x => x.on = o && x.params.contains p)) = .ok w' := by
   unfold setParam at h
   split at h
   · rename_i ob c hob hc
@@ -225,8 +269,18 @@ theorem setParam_ok {w w' : PWorld} {o : Oid} {p : Name} {v : Val} (h : setParam
             exact ⟨ob, c, old, w2, hob, hc, hname, by simpa using hacc, hold, hw2, h⟩
   · simp at h
 
-/-- `Scope` additionally needs: the parameters of the path are declared object-valued everywhere -/
-def ObjOnly (w : PWorld) (s : PathSpec) : Prop := ∀ n ∈ s.path, ∀ c ∈ w.classes, n ∉ c.intParams
+/-! ### typing of the parameters the specs name -/
+
+/-- path parameters are declared object-valued everywhere, leaves integer-valued everywhere and hold integers -/
+structure Typing (w : PWorld) (specs : List PathSpec) : Prop where
+  objOnly : ∀ s ∈ specs, ∀ n ∈ s.path, ∀ c ∈ w.classes, n ∉ c.intParams
+  intOnly : ∀ s ∈ specs, ∀ c ∈ w.classes, s.leaf ∉ c.objParams
+  leafInt : ∀ s ∈ specs, ∀ o v, getParam w o s.leaf = some v → ∃ i, v = .int i
+
+theorem Typing.congr {w w' : PWorld} {specs : List PathSpec} (h : SameGraph w w') (ht : Typing w specs) : Typing w' specs :=
+  ⟨fun s hs n hn c hc => ht.objOnly s hs n hn c (by rw [← h.2]; exact hc),
+   fun s hs c hc => ht.intOnly s hs c (by rw [← h.2]; exact hc),
+   fun s hs o v hv => ht.leafInt s hs o v (by rw [← getParam_congr h]; exact hv)⟩
 
 theorem classOf_mem {w : PWorld} {o : Oid} {c : PClass} (h : classOf w o = some c) : c ∈ w.classes := by
   unfold classOf at h
@@ -234,11 +288,11 @@ theorem classOf_mem {w : PWorld} {o : Oid} {c : PClass} (h : classOf w o = some 
   · exact List.mem_of_getElem? h
   · cases h
 
-theorem scope_store {w : PWorld} {t : Oid} {m : Name} {s : PathSpec} (hs : Scope w t m s) (hoo : ObjOnly w s)
+theorem scope_store {w : PWorld} {t : Oid} {m : Name} {specs : List PathSpec} (hs : Scope w t m specs) (hty : Typing w specs)
     {o : Oid} {ob : PObj} {c : PClass} {p : Name} {v old : Val}
     (hob : w.objs[o]? = some ob) (hc : classOf w o = some c) (hacc : accepts w c p v = true)
     (hold : lookupVal ob.vals p = some old) :
-    Scope (store w o ob p v) t m s ∧ ObjOnly (store w o ob p v) s := by
+    Scope (store w o ob p v) t m specs ∧ Typing (store w o ob p v) specs := by
   have hlen : (store w o ob p v).objs.length = w.objs.length := by simp [store]
   have hgp := getParam_store w o ob p v old hob hold
   have hasN : ∀ n, HasName w n → HasName (store w o ob p v) n := by
@@ -247,13 +301,15 @@ theorem scope_store {w : PWorld} {t : Oid} {m : Name} {s : PathSpec} (hs : Scope
     split
     · exact ⟨v, rfl⟩
     · exact hn o' (by rw [← hlen]; exact ho')
-  refine ⟨⟨?_, ?_, hs.leaf, hs.path, ?_, hasN _ hs.hasLeaf⟩, fun n hn c' hc' => hoo n hn c' (by simpa [store] using hc')⟩
+  refine ⟨⟨?_, ?_, hs.nonempty, hs.leaf, hs.path, ?_, fun s hs' => hasN _ (hs.hasLeaf s hs')⟩,
+    ⟨fun s hs' n hn c' hc' => hty.objOnly s hs' n hn c' (by simpa [store] using hc'),
+     fun s hs' c' hc' => hty.intOnly s hs' c' (by simpa [store] using hc'), ?_⟩⟩
   · simpa [classOf_store w o ob p v hob] using hs.tcls
   · intro o' c' ho' hc'
     rw [classOf_store w o ob p v hob] at hc'
     exact hs.others o' c' ho' hc'
-  · intro n hn
-    refine ⟨hasN n (hs.names n hn).1, ?_, (hs.names n hn).2.2⟩
+  · intro s hs' n hn
+    refine ⟨hasN n (hs.names s hs' n hn).1, ?_, (hs.names s hs' n hn).2.2⟩
     intro o' v' hv'
     rw [hgp] at hv'
     rw [hlen]
@@ -261,7 +317,6 @@ theorem scope_store {w : PWorld} {t : Oid} {m : Name} {s : PathSpec} (hs : Scope
     · rename_i hcond
       simp only [Option.some.injEq] at hv'
       subst hv'
-      -- the assigned value was accepted by an object-valued parameter
       unfold accepts at hacc
       cases v with
       | none => exact Or.inl rfl
@@ -270,27 +325,44 @@ theorem scope_store {w : PWorld} {t : Oid} {m : Name} {s : PathSpec} (hs : Scope
         exact Or.inr ⟨o2, rfl, hacc.2⟩
       | int i =>
         simp only [List.contains_iff_mem] at hacc
-        exact absurd (hcond.2 ▸ hacc) (hoo n hn c (classOf_mem hc))
-    · exact (hs.names n hn).2.1 o' v' hv'
+        exact absurd (hcond.2 ▸ hacc) (hty.objOnly s hs' n hn c (classOf_mem hc))
+    · exact (hs.names s hs' n hn).2.1 o' v' hv'
+  · intro s hs' o' v' hv'
+    rw [hgp] at hv'
+    split at hv'
+    · rename_i hcond
+      simp only [Option.some.injEq] at hv'
+      subst hv'
+      unfold accepts at hacc
+      cases v with
+      | int i => exact ⟨i, rfl⟩
+      | none =>
+        simp only [List.contains_iff_mem] at hacc
+        exact absurd (hcond.2 ▸ hacc) (hty.intOnly s hs' c (classOf_mem hc))
+      | ref o2 =>
+        simp only [Bool.and_eq_true, List.contains_iff_mem] at hacc
+        exact absurd (hcond.2 ▸ hacc.1) (hty.intOnly s hs' c (classOf_mem hc))
+    · exact hty.leafInt s hs' o' v' hv'
 
 /-! ### `_update_deps` calls that do nothing -/
 
-theorem updateDeps_other {w : PWorld} {t : Oid} {m : Name} {s : PathSpec} (hs : Scope w t m s) {o : Oid} {c : PClass}
+theorem updateDeps_other {w : PWorld} {t : Oid} {m : Name} {specs : List PathSpec} (hs : Scope w t m specs) {o : Oid} {c : PClass}
     (ho : o ≠ t) (hc : classOf w o = some c) (a : Option Name) (init : Bool := false) : updateDeps w o a init = .ok w := by
   unfold updateDeps
   rw [hc]
   simp only [hs.others o c ho hc]
   rfl
 
-theorem updateDeps_otherAttr {w : PWorld} {t : Oid} {m : Name} {s : PathSpec} (hs : Scope w t m s) {p : Name}
-    (hp : p ≠ s.root) : updateDeps w t (some p) false = .ok w := by
+theorem updateDeps_otherAttr {w : PWorld} {t : Oid} {m : Name} {specs : List PathSpec} (hs : Scope w t m specs) {p : Name}
+    (hp : ∀ s ∈ specs, s.root ≠ p) : updateDeps w t (some p) false = .ok w := by
   obtain ⟨ct, hct, hm⟩ := hs.tcls
   unfold updateDeps
   rw [hct]
   simp only [hm]
-  have : ([s].filter (fun s' => decide (s'.root = p))) = [] := by
-    have hne : ¬ s.root = p := fun e => hp e.symm
-    simp [hne]
+  have : (specs.filter (fun s' => decide (s'.root = p))) = [] := by
+    rw [List.filter_eq_nil_iff]
+    intro s hs'
+    simp [hp s hs']
   simp [updateEntries, updateEntry, this]
 
 /-! ### facts about the shapes of a walk -/
@@ -306,14 +378,14 @@ theorem builtFrom_on (w : PWorld) : ∀ (path : List Name) (cur : Oid) (d : Nat)
     split <;> simp [ih]
 
 /-- the remaining path kept in the filter of a shape -/
-def restOf (sh : Shape) : List Name :=
+def restOf (sh : SShape) : List Name :=
   match sh.changed with
   | some [r] => r
   | _ => []
 
 /-- through the holder of a shape the walk continues to the same leaf — in any graph `u` that agrees
 with `w` on what is read at the other holders -/
-theorem builtFrom_cont (w u : PWorld) (leaf : Name) : ∀ (path : List Name) (cur : Oid) (d : Nat) (sh : Shape),
+theorem builtFrom_cont (w u : PWorld) (leaf : Name) : ∀ (path : List Name) (cur : Oid) (d : Nat) (sh : SShape),
     sh ∈ builtFrom w cur d path leaf → (chainObjsFrom w cur path).Nodup →
     (∀ r ∈ pathReads w cur path, r.1 ≠ sh.on → getParam u r.1 r.2 = getParam w r.1 r.2) →
     ∃ e, sh.params = [e] ∧ (sh.on, e) ∈ depsFrom w cur path leaf ∧
@@ -399,150 +471,6 @@ theorem builtFrom_cont (w u : PWorld) (leaf : Name) : ∀ (path : List Name) (cu
               simpa using this
             · exact b hh
 
-/-! ### one watcher invocation on a world whose dynamic watchers are all recorded -/
-
-theorem skipEvent_congr {w w' : PWorld} (h : SameGraph w w') (c : Option (List (List Name))) (old new : Val) :
-    skipEvent w' c old new = skipEvent w c old new := by
-  unfold skipEvent subValue
-  cases c with
-  | none => rfl
-  | some ps => simp only [follow_congr h]
-
-theorem readsOf_congr {w w' : PWorld} (h : SameGraph w w') (t : Oid) (m : Name) : readsOf w' t m = readsOf w t m := by
-  unfold readsOf methodSpecs
-  simp only [classOf_congr h, follow_congr h]
-
-theorem installed_congr_log {w : PWorld} {t : Oid} {m : Name} {s : PathSpec} (hi : Installed w t m s) (l : List Call) :
-    Installed { w with log := l } t m s :=
-  ⟨by
-    have := built_congr (w := w) (w' := { w with log := l }) ⟨rfl, rfl⟩ t s
-    rw [this]
-    exact hi.shapes, hi.owned, hi.cbs, hi.dynKeys⟩
-
-theorem callWatcherP_installed (u : PWorld) (t : Oid) (m : Name) (s : PathSpec) (x : DW) (old v : Val)
-    (hs : Scope u t m s) (hsim : (chainObjsFrom u t s.path).Nodup)
-    (hown : ∀ y ∈ u.watchers, y.id ∈ dynGet u.dyn (t, m)) (hkeys : ∀ e ∈ u.dyn, e.1 = (t, m))
-    (hx : x.owner = t ∧ x.method = m) (hcb : ∀ a, x.callback = some a → a = none ∨ a = some s.root) :
-    ∃ u', callWatcherP u x old v = .ok u' ∧ SameGraph u u' ∧
-      u'.log = u.log ++ (if valEq old v || skipEvent u x.changed old v then [] else [⟨t, m, readsOf u t m⟩]) ∧
-      ((valEq old v = true ∨ x.callback = none) → u'.watchers = u.watchers ∧ u'.dyn = u.dyn) ∧
-      ((valEq old v = false ∧ x.callback ≠ none) → Installed u' t m s) := by
-  unfold callWatcherP
-  by_cases hv : valEq old v = true
-  · exact ⟨u, by simp [hv], SameGraph.refl u, by simp [hv], fun _ => ⟨rfl, rfl⟩, fun h => by simp [hv] at h⟩
-  · simp only [hv, Bool.false_eq_true, if_false, Bool.false_or]
-    cases hc : x.callback with
-    | none =>
-      simp only
-      by_cases hsk : skipEvent u x.changed old v = true
-      · exact ⟨u, by simp [hsk], SameGraph.refl u, by simp [hsk], fun _ => ⟨rfl, rfl⟩, fun h => absurd rfl h.2⟩
-      · refine ⟨{ u with log := u.log ++ [⟨x.owner, x.method, readsOf u x.owner x.method⟩] }, by simp [hsk], ⟨rfl, rfl⟩,
-          by simp [hsk, hx.1, hx.2], fun _ => ⟨rfl, rfl⟩, fun h => absurd rfl h.2⟩
-    | some a =>
-      simp only
-      obtain ⟨u3, h1, h2, h3, h4⟩ := rebuild u t m s a hs hsim hown hkeys (hcb a hc)
-      rw [hx.1, h1]
-      simp only [skipEvent_congr h2, readsOf_congr h2, hx.2]
-      by_cases hsk : skipEvent u x.changed old v = true
-      · exact ⟨u3, by simp [hsk], h2, by simp [hsk, h3], fun h => by simp_all, fun _ => h4⟩
-      · refine ⟨{ u3 with log := u3.log ++ [⟨t, m, readsOf u t m⟩] }, by simp [hsk], ⟨h2.1, h2.2⟩,
-          by simp [hsk, h3], fun h => by simp_all, fun _ => installed_congr_log h4 _⟩
-
-/-! ### a step -/
-
-theorem built_unfold {w : PWorld} {t : Oid} {m : Name} {s : PathSpec} (hs : Scope w t m s) :
-    ∃ n0 rest0, s.path = n0 :: rest0 ∧ s.root = n0 ∧ (t, n0) ∈ depsFrom w t s.path s.leaf ∧
-      built w t s = (match getParam w t n0 with
-        | some (.ref _) => builtFrom w t 0 s.path s.leaf
-        | _ => []) := by
-  obtain ⟨n0, rest0, hpe⟩ := List.exists_cons_of_ne_nil hs.path
-  refine ⟨n0, rest0, hpe, by simp [PathSpec.root, hpe], by simp [hpe, depsFrom], ?_⟩
-  simp only [built, hpe]
-  cases getParam w t n0 with
-  | none => rfl
-  | some v => cases v <;> rfl
-
-/-- every installed watcher sits on a pair the current walk reads -/
-theorem watcher_dep {w : PWorld} {t : Oid} {m : Name} {s : PathSpec} (hs : Scope w t m s) (hi : Installed w t m s)
-    (hsim : (chainObjsFrom w t s.path).Nodup) {x : DW} (hx : x ∈ w.watchers) :
-    shapeOf x ∈ builtFrom w t 0 s.path s.leaf ∧ (∃ o1, getParam w t s.root = some (.ref o1)) ∧
-      ∃ e, x.params = [e] ∧ (x.on, e) ∈ depsFrom w t s.path s.leaf := by
-  obtain ⟨n0, rest0, hpe, hroot, _, hb⟩ := built_unfold hs
-  have hmem : shapeOf x ∈ built w t s := by rw [← hi.shapes]; exact List.mem_map.2 ⟨x, hx, rfl⟩
-  rw [hb] at hmem
-  cases hg : getParam w t n0 with
-  | none => rw [hg] at hmem; cases hmem
-  | some v =>
-    cases v with
-    | none => rw [hg] at hmem; cases hmem
-    | int i => rw [hg] at hmem; cases hmem
-    | ref o1 =>
-      rw [hg] at hmem
-      obtain ⟨e, h1, h2, _⟩ := builtFrom_cont w w s.leaf s.path t 0 (shapeOf x) hmem hsim (fun _ _ _ => rfl)
-      exact ⟨hmem, ⟨o1, by rw [hroot]; exact hg⟩, e, h1, h2⟩
-
-theorem built_agree {w w1 : PWorld} {t : Oid} {m : Name} {s : PathSpec} (hs : Scope w t m s)
-    (hag : AgreeOn w w1 (pathReads w t s.path)) : built w1 t s = built w t s ∧
-      chainObjsFrom w1 t s.path = chainObjsFrom w t s.path := by
-  obtain ⟨n0, rest0, hpe, _, _, _⟩ := built_unfold hs
-  have h0 : getParam w1 t n0 = getParam w t n0 := hag (t, n0) (by simp [hpe, pathReads])
-  obtain ⟨h1, h2, _⟩ := pathReads_agree w w1 s.leaf s.path t hag
-  refine ⟨?_, h1⟩
-  simp only [built, hpe, h0]
-  rw [← hpe, h2]
-
-/-- **an assignment the walk does not read**: nothing fires, everything stays installed -/
-theorem step_untouched {w w' : PWorld} {t : Oid} {m : Name} {s : PathSpec} {o : Oid} {p : Name} {v : Val}
-    (hs : Scope w t m s) (hoo : ObjOnly w s) (hi : Installed w t m s) (hsim : (chainObjsFrom w t s.path).Nodup)
-    (hstep : setParam w o p v = .ok w') (hun : (o, p) ∉ depsFrom w t s.path s.leaf) :
-    w'.log = w.log ∧ Installed w' t m s ∧ Scope w' t m s ∧ ObjOnly w' s ∧
-      depsFrom w' t s.path s.leaf = depsFrom w t s.path s.leaf ∧
-      follow w' (.ref t) s.elems = follow w (.ref t) s.elems := by
-  obtain ⟨ob, c, old, w2, hob, hc, _, hacc, hold, hud, hdisp⟩ := setParam_ok hstep
-  obtain ⟨hs1, hoo1⟩ := scope_store hs hoo hob hc hacc hold
-  obtain ⟨n0, rest0, hpe, hroot, hfirst, _⟩ := built_unfold hs
-  have hgp := getParam_store w o ob p v old hob hold
-  -- the rebinding call of the setter does nothing
-  have hw2 : w2 = store w o ob p v := by
-    by_cases hot : o = t
-    · subst hot
-      have hp : p ≠ s.root := by
-        intro e
-        apply hun
-        rw [e, hroot]; exact hfirst
-      rw [updateDeps_otherAttr hs1 hp] at hud
-      exact (Except.ok.inj hud).symm
-    · rw [updateDeps_other hs1 hot (by rw [classOf_store w o ob p v hob]; exact hc)] at hud
-      exact (Except.ok.inj hud).symm
-  subst hw2
-  -- no watcher is registered for the pair
-  have hnone : (store w o ob p v).watchers.filter (fun x => x.on = o && x.params.contains p) = [] := by
-    rw [List.filter_eq_nil_iff]
-    intro x hx hcond
-    simp only [Bool.and_eq_true, decide_eq_true_eq, List.contains_iff_mem] at hcond
-    obtain ⟨_, _, e, h1, h2⟩ := watcher_dep hs hi hsim (x := x) hx
-    rw [h1] at hcond
-    simp only [List.mem_singleton] at hcond
-    apply hun
-    rw [← hcond.1, hcond.2]; exact h2
-  rw [hnone] at hdisp
-  simp only [dispatchP, Except.ok.injEq] at hdisp
-  subst hdisp
-  have hag : AgreeOn w (store w o ob p v) (depsFrom w t s.path s.leaf) := by
-    intro r hr
-    rw [hgp]
-    split
-    · rename_i hcond
-      exact absurd (by rw [← hcond.1, ← hcond.2]; exact hr) hun
-    · rfl
-  have hagp : AgreeOn w (store w o ob p v) (pathReads w t s.path) :=
-    fun r hr => hag r (pathReads_sub w s.leaf s.path t r hr)
-  obtain ⟨hb, _⟩ := built_agree hs hagp
-  refine ⟨rfl, ⟨by rw [hb]; exact hi.shapes, hi.owned, hi.cbs, hi.dynKeys⟩, hs1, hoo1, (depsFrom_agree _ _ _ _ _ hag).1, ?_⟩
-  apply follow_agree
-  rw [PathSpec.elems, followReads_deps]
-  exact hag
-
 /-! ### nothing but the setter's store changes the graph -/
 
 theorem watchGroups_graph (t : Oid) (m : Name) (a : Option Name) : ∀ (gs : List Group) (w w' : PWorld),
@@ -560,11 +488,9 @@ theorem watchGroups_graph (t : Oid) (m : Name) (a : Option Name) : ∀ (gs : Lis
         unfold watchGroup at h1
         split at h1
         · simp at h1
-        · split at h1
-          · simp at h1
-          · simp only [Except.ok.injEq] at h1
-            subst h1
-            exact ⟨rfl, rfl⟩
+        · simp only [Except.ok.injEq] at h1
+          subst h1
+          exact ⟨rfl, rfl⟩
       exact this.trans (ih w1 w' h)
 
 theorem updateEntry_graph {u u1 : PWorld} {o : Oid} {a : Option Name} {init : Bool} {m : PMethod}
@@ -599,7 +525,7 @@ theorem updateDeps_graph {w w' : PWorld} {o : Oid} {a : Option Name} {init : Boo
           exact (updateEntry_graph h1).trans (ih u1 u' hu)
     exact this c.methods w w' h
 
-theorem dispatchP_graph (old v : Val) : ∀ (ws : List DW) (w w' : PWorld), dispatchP w old v ws = .ok w' → SameGraph w w' := by
+theorem dispatchP_graph (p : Name) (old v : Val) : ∀ (ws : List DW) (w w' : PWorld), dispatchP w p old v ws = .ok w' → SameGraph w w' := by
   intro ws
   induction ws with
   | nil => intro w w' h; simp only [dispatchP, Except.ok.injEq] at h; subst h; exact SameGraph.refl _
@@ -629,7 +555,7 @@ theorem dispatchP_graph (old v : Val) : ∀ (ws : List DW) (w w' : PWorld), disp
 theorem setParam_graph {w w' : PWorld} {o : Oid} {p : Name} {v : Val} (h : setParam w o p v = .ok w') :
     ∃ ob old, w.objs[o]? = some ob ∧ lookupVal ob.vals p = some old ∧ SameGraph (store w o ob p v) w' := by
   obtain ⟨ob, c, old, w2, hob, _, _, _, hold, hud, hdisp⟩ := setParam_ok h
-  exact ⟨ob, old, hob, hold, (updateDeps_graph hud).trans (dispatchP_graph _ _ _ _ _ hdisp)⟩
+  exact ⟨ob, old, hob, hold, (updateDeps_graph hud).trans (dispatchP_graph _ _ _ _ _ _ hdisp)⟩
 
 theorem valEq_eq {a b : Val} (h : valEq a b = true) : a = b := by
   cases a <;> cases b <;> simp_all [valEq]
@@ -663,150 +589,6 @@ theorem deps_snd_unique {w : PWorld} {cur : Oid} {path : List Name} {leaf : Name
   simp at h3
   exact h3.symm
 
-/-! ### the two kinds of assignment the walk reads -/
-
-theorem subEq_some (a b : Val) : subEq (some a) (some b) = valEq a b := rfl
-
-theorem skipEvent_refs (w : PWorld) (r : List Name) (a b : Oid) :
-    skipEvent w (some [r]) (.ref a) (.ref b) = valEq (follow w (.ref a) r) (follow w (.ref b) r) := by
-  simp [skipEvent, subValue, subEq]
-
-theorem objName_ref {w : PWorld} {n : Name} (hn : ObjName w n) {o : Oid} {v : Val} (hg : getParam w o n = some v)
-    (hv : v ≠ .none) : ∃ o', v = .ref o' := by
-  rcases hn o v hg with h | ⟨o', h, _⟩
-  · exact absurd h hv
-  · exact ⟨o', h⟩
-
-/-- **assignment of the root attribute of the owner** (`t.a = …`): the setter's own `_update_deps(a)`
-rebuilds everything from the new graph, then the one watcher on `(t, a)` decides with its filter -/
-theorem step_root {w w' : PWorld} {t : Oid} {m : Name} {s : PathSpec} {p : Name} {v : Val}
-    (hs : Scope w t m s) (hoo : ObjOnly w s) (hi : Installed w t m s) (hsim : (chainObjsFrom w t s.path).Nodup)
-    (hstep : setParam w t p v = .ok w') (hp : p = s.root) (hsim' : (chainObjsFrom w' t s.path).Nodup) :
-    Installed w' t m s ∧ Scope w' t m s ∧ ObjOnly w' s ∧
-    (∀ old, getParam w t p = some old → old ≠ .none → v ≠ .none →
-      w'.log = w.log ++ (if valEq (follow w (.ref t) s.elems) (follow w' (.ref t) s.elems) then []
-        else [⟨t, m, readsOf w' t m⟩])) := by
-  obtain ⟨ob, c, old, w2, hob, hc, _, hacc, hold, hud, hdisp⟩ := setParam_ok hstep
-  obtain ⟨hs1, hoo1⟩ := scope_store hs hoo hob hc hacc hold
-  have hgp := getParam_store w t ob p v old hob hold
-  have hgold : getParam w t p = some old := by simp [getParam, hob, hold]
-  have hg12 : SameGraph (store w t ob p v) w2 := updateDeps_graph hud
-  have hg2' : SameGraph w2 w' := dispatchP_graph _ _ _ _ _ hdisp
-  have hsim1 : (chainObjsFrom (store w t ob p v) t s.path).Nodup := by
-    rw [← chainObjsFrom_congr (hg12.trans hg2')]; exact hsim'
-  obtain ⟨w2', r1, r2, r3, r4⟩ := rebuild (store w t ob p v) t m s (some p) hs1 hsim1
-    (fun x hx => (hi.owned x hx).2.2) hi.dynKeys (Or.inr (by rw [hp]))
-  rw [r1] at hud
-  have : w2' = w2 := Except.ok.inj hud
-  subst this
-  have hs2 : Scope w2' t m s := hs1.congr r2
-  have hoo2 : ObjOnly w2' s := fun n hn c' hc' => hoo1 n hn c' (by rw [← r2.2]; exact hc')
-  have hsim2 : (chainObjsFrom w2' t s.path).Nodup := by rw [chainObjsFrom_congr r2]; exact hsim1
-  obtain ⟨n0, rest0, hpe, hroot, _, hb⟩ := built_unfold hs2
-  have hpn : p = n0 := hp.trans hroot
-  have hg2v : getParam w2' t n0 = some v := by
-    rw [getParam_congr r2, hgp]; simp [hpn]
-  have hlog2 : w2'.log = w.log := r3
-  have hscope' : Scope w' t m s := hs2.congr hg2'
-  have hoo' : ObjOnly w' s := fun n hn c' hc' => hoo2 n hn c' (by rw [← hg2'.2]; exact hc')
-  have hvobj := (hs2.names n0 (by rw [hpe]; simp)).2.1 t v hg2v
-  -- shapes of the rebuilt world
-  have hshapes := r4.shapes
-  rw [hb, hg2v] at hshapes
-  rcases hvobj with hvn | ⟨o1, hvr, _⟩
-  · -- detached: nothing is installed, nothing is called
-    subst hvn
-    simp only at hshapes
-    have hnil : w2'.watchers = [] := List.map_eq_nil_iff.1 hshapes
-    rw [hnil] at hdisp
-    simp only [List.filter_nil, dispatchP, Except.ok.injEq] at hdisp
-    subst hdisp
-    exact ⟨r4, hs2, hoo2, fun _ _ _ hv => absurd rfl hv⟩
-  · subst hvr
-    simp only [hpe, builtFrom] at hshapes
-    -- the first watcher is the one on `(t, a)`, the others sit on other objects
-    cases hws : w2'.watchers with
-    | nil => rw [hws] at hshapes; simp at hshapes
-    | cons x0 xs =>
-      rw [hws] at hshapes
-      simp only [List.map_cons, List.cons.injEq] at hshapes
-      obtain ⟨hx0, hxs⟩ := hshapes
-      simp only [hg2v] at hxs
-      have hchain : chainObjsFrom w2' t s.path = t :: chainObjsFrom w2' o1 rest0 := by
-        simp [hpe, chainObjsFrom, hg2v]
-      rw [hchain, List.nodup_cons] at hsim2
-      have hfilter : (x0 :: xs).filter (fun x => x.on = t && x.params.contains p) = [x0] := by
-        have h0 : (x0.on = t && x0.params.contains p) = true := by
-          have h1 : x0.on = t := congrArg Shape.on hx0
-          have h2 : x0.params = [n0] := congrArg Shape.params hx0
-          simp [h1, h2, hpn]
-        have hrest : xs.filter (fun x => x.on = t && x.params.contains p) = [] := by
-          rw [List.filter_eq_nil_iff]
-          intro y hy hcond
-          simp only [Bool.and_eq_true, decide_eq_true_eq] at hcond
-          have : shapeOf y ∈ builtFrom w2' o1 (0 + 1) rest0 s.leaf := by
-            rw [← hxs]; exact List.mem_map.2 ⟨y, hy, rfl⟩
-          have hon : y.on ∈ chainObjsFrom w2' o1 rest0 := by
-            rw [← builtFrom_on w2' rest0 o1 (0 + 1) s.leaf]
-            exact List.mem_map.2 ⟨shapeOf y, this, rfl⟩
-          exact hsim2.1 (hcond.1 ▸ hon)
-        rw [List.filter_cons, if_pos h0, hrest]
-      rw [hws, hfilter] at hdisp
-      have hcbnone : x0.callback = none := by
-        have : x0.callback.isSome = false := by
-          have := congrArg Shape.cb hx0
-          simpa [shapeOf] using this
-        cases h : x0.callback with
-        | none => rfl
-        | some a => rw [h] at this; cases this
-      obtain ⟨u', c1, c2, c3, c4, _⟩ := callWatcherP_installed w2' t m s x0 old (.ref o1) hs2
-        (by rw [hchain, List.nodup_cons]; exact hsim2)
-        (fun y hy => (r4.owned y hy).2.2) r4.dynKeys
-        ⟨(r4.owned x0 (by rw [hws]; simp)).1, (r4.owned x0 (by rw [hws]; simp)).2.1⟩
-        (fun a ha => by rw [hcbnone] at ha; cases ha)
-      simp only [dispatchP, c1, Except.ok.injEq] at hdisp
-      subst hdisp
-      obtain ⟨cw, cd⟩ := c4 (Or.inr hcbnone)
-      have hinst' : Installed u' t m s :=
-        ⟨by rw [cw, built_congr c2]; exact r4.shapes, fun y hy => by rw [cw] at hy; rw [cd]; exact r4.owned y hy,
-         fun y hy => by rw [cw] at hy; exact r4.cbs y hy, fun e he => by rw [cd] at he; exact r4.dynKeys e he⟩
-      refine ⟨hinst', hscope', hoo', ?_⟩
-      intro old' hold' holdn _
-      rw [hgold] at hold'
-      have : old' = old := (Option.some.inj hold').symm
-      subst this
-      obtain ⟨oo, hoo_⟩ := objName_ref (hs.names p (by rw [hpn, hpe]; simp)).2.1 hgold holdn
-      subst hoo_
-      have hchg : x0.changed = some [rest0 ++ [s.leaf]] := congrArg Shape.changed hx0
-      rw [c3, hlog2, hchg, skipEvent_refs]
-      have hv0 : valEq (.ref oo) (.ref o1) = false := rfl
-      simp only [hv0, Bool.false_or]
-      -- the value reached afterwards
-      have e1 : follow u' (.ref t) s.elems = follow w2' (.ref o1) (rest0 ++ [s.leaf]) := by
-        rw [follow_congr c2]
-        simp [PathSpec.elems, hpe, follow, attrOr, hg2v]
-      -- the value reached before
-      have hgw : getParam w t n0 = some (.ref oo) := by rw [← hpn]; exact hgold
-      have e2 : follow w (.ref t) s.elems = follow w (.ref oo) (rest0 ++ [s.leaf]) := by
-        simp [PathSpec.elems, hpe, follow, attrOr, hgw]
-      have e3 : follow w2' (.ref oo) (rest0 ++ [s.leaf]) = follow w (.ref oo) (rest0 ++ [s.leaf]) := by
-        rw [follow_congr r2]
-        apply follow_agree
-        intro q hq
-        rw [hgp]
-        split
-        · rename_i hcond
-          -- the old sub-tree does not read `(t, a)`
-          have hfirst : (⟨t, [n0], some [rest0 ++ [s.leaf]], decide (0 < 0)⟩ : Shape) ∈ builtFrom w t 0 s.path s.leaf := by
-            simp [hpe, builtFrom]
-          obtain ⟨e, he1, _, _, he4, _, _⟩ := builtFrom_cont w w s.leaf s.path t 0 _ hfirst hsim (fun _ _ _ => rfl)
-          simp only [List.cons.injEq, and_true] at he1
-          subst he1
-          have := he4 q (by simpa [restOf, attrOr, hgw] using hq)
-          exact absurd hcond.1 this
-        · rfl
-      rw [e1, e2, ← e3, readsOf_congr c2]
-
 theorem pathReads_snd_mem (w : PWorld) : ∀ (path : List Name) (cur : Oid), ∀ r ∈ pathReads w cur path, r.2 ∈ path := by
   intro path
   induction path with
@@ -825,358 +607,11 @@ theorem pathReads_snd_mem (w : PWorld) : ∀ (path : List Name) (cur : Oid), ∀
         | int i => rw [hg] at hr; cases hr
         | ref o => rw [hg] at hr; exact ih o r hr
 
-/-- **assignment on an object below the owner that the walk reads** (`t.a.b = …`, `t.a.b.x = …`): the
-watcher installed on it rebinds through its callback (intermediate level) and decides with its filter -/
-theorem step_deeper {w w' : PWorld} {t : Oid} {m : Name} {s : PathSpec} {o : Oid} {p : Name} {v : Val}
-    (hs : Scope w t m s) (hoo : ObjOnly w s) (hi : Installed w t m s) (hsim : (chainObjsFrom w t s.path).Nodup)
-    (hstep : setParam w o p v = .ok w') (hot : o ≠ t) (hto : (o, p) ∈ depsFrom w t s.path s.leaf)
-    (hsim' : (chainObjsFrom w' t s.path).Nodup) :
-    Installed w' t m s ∧ Scope w' t m s ∧ ObjOnly w' s ∧
-    (∀ old, getParam w o p = some old → old ≠ .none → v ≠ .none →
-      w'.log = w.log ++ (if valEq (follow w (.ref t) s.elems) (follow w' (.ref t) s.elems) then []
-        else [⟨t, m, readsOf w' t m⟩])) := by
-  obtain ⟨ob, c, old, w2, hob, hc, _, hacc, hold, hud, hdisp⟩ := setParam_ok hstep
-  obtain ⟨hs1, hoo1⟩ := scope_store hs hoo hob hc hacc hold
-  have hgp := getParam_store w o ob p v old hob hold
-  have hgold : getParam w o p = some old := by simp [getParam, hob, hold]
-  rw [updateDeps_other hs1 hot (by rw [classOf_store w o ob p v hob]; exact hc)] at hud
-  have : store w o ob p v = w2 := Except.ok.inj hud
-  subst this
-  have hg1' : SameGraph (store w o ob p v) w' := dispatchP_graph _ _ _ _ _ hdisp
-  have hsim1 : (chainObjsFrom (store w o ob p v) t s.path).Nodup := by
-    rw [← chainObjsFrom_congr hg1']; exact hsim'
-  have hscope' : Scope w' t m s := hs1.congr hg1'
-  have hoo' : ObjOnly w' s := fun n hn c' hc' => hoo1 n hn c' (by rw [← hg1'.2]; exact hc')
-  -- the root resolves, so the installed watchers are those of the walk
-  obtain ⟨n0, rest0, hpe, hroot, _, hb⟩ := built_unfold hs
-  have hrootref : ∃ o1, getParam w t n0 = some (.ref o1) := by
-    cases hg : getParam w t n0 with
-    | none => rw [hpe] at hto; simp [depsFrom, hg] at hto; exact absurd hto.1 hot
-    | some vv =>
-      cases vv with
-      | none => rw [hpe] at hto; simp [depsFrom, hg] at hto; exact absurd hto.1 hot
-      | int i => rw [hpe] at hto; simp [depsFrom, hg] at hto; exact absurd hto.1 hot
-      | ref o1 => exact ⟨o1, rfl⟩
-  obtain ⟨o1, hg0⟩ := hrootref
-  rw [hg0] at hb
-  simp only at hb
-  have hBw : w.watchers.map shapeOf = builtFrom w t 0 s.path s.leaf := by rw [hi.shapes, hb]
-  -- the shape and the watcher on `(o, p)`
-  have hshex : ∃ sh ∈ builtFrom w t 0 s.path s.leaf, sh.on = o ∧ sh.params = [p] := by
-    have h1 : (o, [p]) ∈ (depsFrom w t s.path s.leaf).map (fun x => (x.1, [x.2])) := List.mem_map.2 ⟨(o, p), hto, rfl⟩
-    rw [← builtFrom_deps w s.path t 0 s.leaf] at h1
-    obtain ⟨sh, hsh, he⟩ := List.mem_map.1 h1
-    simp only [Prod.mk.injEq] at he
-    exact ⟨sh, hsh, he.1, he.2⟩
-  obtain ⟨sh, hsh, hsho, hshp⟩ := hshex
-  have hxex : ∃ x ∈ w.watchers, shapeOf x = sh := by
-    rw [← hBw] at hsh
-    exact List.mem_map.1 hsh
-  obtain ⟨x, hxw, hxs⟩ := hxex
-  have hxon : x.on = o := by rw [← hsho, ← hxs]; rfl
-  have honsN : (w.watchers.map (·.on)).Nodup := by
-    have : w.watchers.map (·.on) = (w.watchers.map shapeOf).map (·.on) := by simp [List.map_map, shapeOf]
-    rw [this, hBw, builtFrom_on]; exact hsim
-  have hfilter : w.watchers.filter (fun y => y.on = o && y.params.contains p) = [x] := by
-    rw [← filter_key_singleton (fun y : DW => y.on) w.watchers x honsN hxw]
-    apply List.filter_congr
-    intro y hy
-    rw [hxon]
-    by_cases hyo : y.on = o
-    · obtain ⟨_, _, e, h1, h2⟩ := watcher_dep hs hi hsim (x := y) hy
-      rw [hyo] at h2
-      have := deps_snd_unique hsim h2 hto
-      simp [hyo, h1, this]
-    · simp [hyo]
-  have hw1w : (store w o ob p v).watchers = w.watchers := rfl
-  rw [hw1w, hfilter] at hdisp
-  obtain ⟨u', c1, c2, c3, c4, c5⟩ := callWatcherP_installed (store w o ob p v) t m s x old v hs1 hsim1
-    (fun y hy => (hi.owned y hy).2.2) hi.dynKeys ⟨(hi.owned x hxw).1, (hi.owned x hxw).2.1⟩ (hi.cbs x hxw)
-  simp only [dispatchP, c1, Except.ok.injEq] at hdisp
-  subst hdisp
-  -- what the walk says about this shape, in the old and in the new graph
-  obtain ⟨e, he1, _, he3, he4, he5, he6⟩ := builtFrom_cont w w s.leaf s.path t 0 sh hsh hsim (fun _ _ _ => rfl)
-  rw [hshp] at he1
-  simp only [List.cons.injEq, and_true] at he1
-  subst he1
-  have hagree1 : ∀ r ∈ pathReads w t s.path, r.1 ≠ sh.on →
-      getParam (store w o ob p v) r.1 r.2 = getParam w r.1 r.2 := by
-    intro r _ hne
-    rw [hgp]
-    split
-    · rename_i hcond
-      exact absurd (hcond.1.trans hsho.symm) hne
-    · rfl
-  obtain ⟨e', he1', _, he3', _, _, _⟩ := builtFrom_cont w (store w o ob p v) s.leaf s.path t 0 sh hsh hsim hagree1
-  rw [hshp] at he1'
-  simp only [List.cons.injEq, and_true] at he1'
-  subst he1'
-  rw [hsho] at he3 he3' he4
-  have hg1v : getParam (store w o ob p v) o p = some v := by rw [hgp]; simp
-  have hchg : x.changed = sh.changed := by rw [← hxs]; rfl
-  have hcbx : x.callback.isSome = sh.cb := by rw [← hxs]; rfl
-  by_cases hleafsh : sh.changed = none
-  · -- the leaf
-    obtain ⟨_, hcbf, hnotread⟩ := he5 hleafsh
-    have hcbnone : x.callback = none := by
-      rw [hcbf] at hcbx
-      cases h : x.callback with
-      | none => rfl
-      | some a => rw [h] at hcbx; cases hcbx
-    obtain ⟨cw, cd⟩ := c4 (Or.inr hcbnone)
-    have hagp : AgreeOn w (store w o ob p v) (pathReads w t s.path) := by
-      intro r hr
-      exact hagree1 r hr (hnotread r hr)
-    obtain ⟨hbuilt, _⟩ := built_agree hs hagp
-    refine ⟨⟨by rw [cw, built_congr c2, hbuilt]; exact hi.shapes, fun y hy => by rw [cw] at hy; rw [cd]; exact hi.owned y hy,
-      fun y hy => by rw [cw] at hy; exact hi.cbs y hy, fun e he => by rw [cd] at he; exact hi.dynKeys e he⟩, hscope', hoo', ?_⟩
-    intro old' hold' _ _
-    rw [hgold] at hold'
-    have : old = old' := Option.some.inj hold'
-    subst this
-    rw [c3, hchg, hleafsh]
-    have hrest : restOf sh = [] := by simp [restOf, hleafsh]
-    rw [hrest] at he3 he3'
-    have e1 : follow w (.ref t) s.elems = old := by
-      rw [PathSpec.elems, he3]; simp [follow, attrOr, hgold]
-    have e2 : follow u' (.ref t) s.elems = v := by
-      rw [follow_congr c2, PathSpec.elems, he3']; simp [follow, attrOr, hg1v]
-    simp only [skipEvent, Bool.or_false, e1, e2, readsOf_congr c2]
-    rfl
-  · -- an intermediate level
-    obtain ⟨hinpath, hcbt, _, hchs⟩ := he6 hleafsh
-    have hpmem : p ∈ s.path := pathReads_snd_mem w s.path t _ hinpath
-    have hcbsome : x.callback ≠ none := by
-      rw [hcbt (by rw [hsho]; exact hot)] at hcbx
-      intro h; rw [h] at hcbx; cases hcbx
-    by_cases hv : valEq old v = true
-    · -- `None` replaced by `None`: nothing happens and nothing had to
-      have hvo := valEq_eq hv
-      obtain ⟨cw, cd⟩ := c4 (Or.inl hv)
-      have hagp : AgreeOn w (store w o ob p v) (pathReads w t s.path) := by
-        intro r _
-        rw [hgp]
-        split
-        · rename_i hcond
-          rw [hcond.1, hcond.2, hgold, hvo]
-        · rfl
-      obtain ⟨hbuilt, _⟩ := built_agree hs hagp
-      refine ⟨⟨by rw [cw, built_congr c2, hbuilt]; exact hi.shapes, fun y hy => by rw [cw] at hy; rw [cd]; exact hi.owned y hy,
-        fun y hy => by rw [cw] at hy; exact hi.cbs y hy, fun e he => by rw [cd] at he; exact hi.dynKeys e he⟩, hscope', hoo', ?_⟩
-      intro old' hold' holdn _
-      rw [hgold] at hold'
-      have : old = old' := Option.some.inj hold'
-      subst this
-      obtain ⟨oo, rfl⟩ := objName_ref (hs.names p hpmem).2.1 hgold holdn
-      subst hvo
-      simp [valEq] at hv
-    · simp only [Bool.not_eq_true] at hv
-      refine ⟨c5 ⟨hv, hcbsome⟩, hscope', hoo', ?_⟩
-      intro old' hold' holdn hvn
-      rw [hgold] at hold'
-      have : old = old' := Option.some.inj hold'
-      subst this
-      obtain ⟨oo, rfl⟩ := objName_ref (hs.names p hpmem).2.1 hgold holdn
-      obtain ⟨vv, rfl⟩ := objName_ref (hs1.names p hpmem).2.1 hg1v hvn
-      rw [c3, hchg, hchs, skipEvent_refs]
-      simp only [hv, Bool.false_or]
-      have e1 : follow w (.ref t) s.elems = follow w (.ref oo) (restOf sh) := by
-        rw [PathSpec.elems, he3]; simp [follow, attrOr, hgold]
-      have e2 : follow u' (.ref t) s.elems = follow (store w o ob p (.ref vv)) (.ref vv) (restOf sh) := by
-        rw [follow_congr c2, PathSpec.elems, he3']; simp [follow, attrOr, hg1v]
-      have e3 : follow (store w o ob p (.ref vv)) (.ref oo) (restOf sh) = follow w (.ref oo) (restOf sh) := by
-        apply follow_agree
-        intro q hq
-        rw [hgp]
-        split
-        · rename_i hcond
-          have := he4 q (by simpa [attrOr, hgold] using hq)
-          exact absurd hcond.1 this
-        · rfl
-      rw [e1, e2, ← e3, readsOf_congr c2]
-      rfl
+theorem objName_ref {w : PWorld} {n : Name} (hn : ObjName w n) {o : Oid} {v : Val} (hg : getParam w o n = some v)
+    (hv : v ≠ .none) : ∃ o', v = .ref o' := by
+  rcases hn o v hg with h | ⟨o', h, _⟩
+  · exact absurd h hv
+  · exact ⟨o', h⟩
 
-/-! ### construction -/
-
-theorem newObj_ok {w w' : PWorld} {cls : Nat} {vals : List (Name × Val)} (h : newObj w cls vals = .ok w') :
-    ∃ c, w.classes[cls]? = some c ∧
-      updateDeps { w with objs := w.objs ++ [⟨cls, vals⟩] } w.objs.length none true = .ok w' := by
-  unfold newObj at h
-  split at h
-  · simp at h
-  · rename_i c hc
-    split at h
-    · simp at h
-    · split at h
-      · simp at h
-      · exact ⟨c, hc, h⟩
-
-theorem getParam_append (w : PWorld) (ob : PObj) (o : Oid) (n : Name) (ho : o < w.objs.length) :
-    getParam { w with objs := w.objs ++ [ob] } o n = getParam w o n := by
-  simp [getParam, List.getElem?_append_left ho]
-
-theorem pathReads_lt (w : PWorld) : ∀ (path : List Name) (cur : Oid), cur < w.objs.length → (∀ n ∈ path, ObjName w n) →
-    ∀ r ∈ pathReads w cur path, r.1 < w.objs.length := by
-  intro path
-  induction path with
-  | nil => intro cur _ _ r hr; cases hr
-  | cons n rest ih =>
-    intro cur hc hall r hr
-    simp only [pathReads, List.mem_cons] at hr
-    rcases hr with rfl | hr
-    · exact hc
-    · cases hg : getParam w cur n with
-      | none => rw [hg] at hr; cases hr
-      | some v =>
-        cases v with
-        | none => rw [hg] at hr; cases hr
-        | int i => rw [hg] at hr; cases hr
-        | ref o =>
-          rw [hg] at hr
-          rcases hall n (by simp) cur _ hg with h | ⟨o', h, hlt⟩
-          · cases h
-          · cases h
-            exact ih o hlt (fun x hx => hall x (List.mem_cons_of_mem _ hx)) r hr
-
-/-- **constructing the owner establishes the invariant** (`_update_deps(init=True)`) -/
-theorem new_owner_installed {w w' : PWorld} {cls : Nat} {vals : List (Name × Val)} {t : Oid} {m : Name} {s : PathSpec}
-    (hnew : newObj w cls vals = .ok w') (ht : t = w.objs.length) (hw : w.watchers = [] ∧ w.dyn = [])
-    (hs' : Scope w' t m s) (hsim' : (chainObjsFrom w' t s.path).Nodup) : Installed w' t m s ∧ w'.log = w.log := by
-  obtain ⟨c, _, hud⟩ := newObj_ok hnew
-  have hg := updateDeps_graph hud
-  rw [← ht] at hud
-  obtain ⟨w2, r1, _, r3, r4⟩ := rebuild_gen { w with objs := w.objs ++ [⟨cls, vals⟩] } t m s none true
-    (hs'.congr hg.symm) (by rw [← chainObjsFrom_congr hg]; exact hsim') (by simp [hw.1]) (by simp [hw.2]) (Or.inl rfl)
-    (fun _ => ⟨hw.1, hw.2⟩)
-  rw [r1] at hud
-  have : w2 = w' := Except.ok.inj hud
-  subst this
-  exact ⟨r4, r3⟩
-
-/-- **constructing any other object changes nothing** -/
-theorem new_other_installed {w w' : PWorld} {cls : Nat} {vals : List (Name × Val)} {t : Oid} {m : Name} {s : PathSpec}
-    (hnew : newObj w cls vals = .ok w') (hs : Scope w t m s) (hi : Installed w t m s) (hs' : Scope w' t m s) :
-    Installed w' t m s ∧ w'.log = w.log ∧ chainObjsFrom w' t s.path = chainObjsFrom w t s.path := by
-  obtain ⟨c, hc, hud⟩ := newObj_ok hnew
-  have hg := updateDeps_graph hud
-  obtain ⟨ct, hct, _⟩ := hs.tcls
-  have htl : t < w.objs.length := classOf_lt hct
-  have hne : w.objs.length ≠ t := Nat.ne_of_gt htl
-  have hcls : classOf { w with objs := w.objs ++ [⟨cls, vals⟩] } w.objs.length = some c := by
-    simp [classOf, hc]
-  rw [updateDeps_other (hs'.congr hg.symm) hne hcls none true] at hud
-  have : { w with objs := w.objs ++ [⟨cls, vals⟩] } = w' := Except.ok.inj hud
-  subst this
-  have hag : AgreeOn w { w with objs := w.objs ++ [⟨cls, vals⟩] } (pathReads w t s.path) := by
-    intro r hr
-    exact getParam_append w _ r.1 r.2 (pathReads_lt w s.path t htl (fun n hn => (hs.names n hn).2.1) r hr)
-  obtain ⟨hb, hch⟩ := built_agree hs hag
-  exact ⟨⟨by rw [hb]; exact hi.shapes, hi.owned, hi.cbs, hi.dynKeys⟩, rfl, hch⟩
-
-/-- every installed watcher sits on an object of the current resolution chain -/
-theorem installed_on_chain {w : PWorld} {t : Oid} {m : Name} {s : PathSpec} (hs : Scope w t m s) (hi : Installed w t m s)
-    (hsim : (chainObjsFrom w t s.path).Nodup) : ∀ x ∈ w.watchers, x.on ∈ chainObjsFrom w t s.path ∧ x.owner = t ∧ x.method = m := by
-  intro x hx
-  obtain ⟨h1, _, _⟩ := watcher_dep hs hi hsim hx
-  refine ⟨?_, (hi.owned x hx).1, (hi.owned x hx).2.1⟩
-  rw [← builtFrom_on w s.path t 0 s.leaf]
-  exact List.mem_map.2 ⟨shapeOf x, h1, rfl⟩
-
-/-! ### decidable versions of the hypotheses (used by the non-vacuity examples) -/
-
-def hasNameB (w : PWorld) (n : Name) : Bool := (List.range w.objs.length).all (fun o => (getParam w o n).isSome)
-
-def objNameB (w : PWorld) (n : Name) : Bool :=
-  (List.range w.objs.length).all (fun o =>
-    match getParam w o n with
-    | some (.ref o') => decide (o' < w.objs.length)
-    | some (.int _) => false
-    | _ => true)
-
-def scopeB (w : PWorld) (t : Oid) (m : Name) (s : PathSpec) : Bool :=
-  (match classOf w t with
-   | some ct => decide (ct.methods = [⟨m, [s]⟩])
-   | none => false) &&
-  (List.range w.objs.length).all (fun o => o == t ||
-    match classOf w o with
-    | some c => c.methods.isEmpty
-    | none => true) &&
-  s.leaf != "param" && !s.path.isEmpty &&
-  s.path.all (fun n => hasNameB w n && objNameB w n && n != "param") && hasNameB w s.leaf
-
-def objOnlyB (w : PWorld) (s : PathSpec) : Bool := s.path.all (fun n => w.classes.all (fun c => !c.intParams.contains n))
-
-theorem getParam_none_of_ge (w : PWorld) (o : Oid) (n : Name) (h : w.objs.length ≤ o) : getParam w o n = none := by
-  simp [getParam, List.getElem?_eq_none h]
-
-theorem hasNameB_spec {w : PWorld} {n : Name} (h : hasNameB w n = true) : HasName w n := by
-  intro o ho
-  have := (List.all_eq_true.1 h) o (List.mem_range.2 ho)
-  exact Option.isSome_iff_exists.1 this
-
-theorem objNameB_spec {w : PWorld} {n : Name} (h : objNameB w n = true) : ObjName w n := by
-  intro o v hv
-  rcases Nat.lt_or_ge o w.objs.length with hlt | hge
-  · have := (List.all_eq_true.1 h) o (List.mem_range.2 hlt)
-    rw [hv] at this
-    cases v with
-    | none => exact Or.inl rfl
-    | int i => simp at this
-    | ref o' => exact Or.inr ⟨o', rfl, by simpa using this⟩
-  · rw [getParam_none_of_ge w o n hge] at hv; cases hv
-
-theorem scopeB_spec {w : PWorld} {t : Oid} {m : Name} {s : PathSpec} (h : scopeB w t m s = true) : Scope w t m s := by
-  unfold scopeB at h
-  simp only [Bool.and_eq_true] at h
-  obtain ⟨⟨⟨⟨⟨h1, h2⟩, h3⟩, h4⟩, h5⟩, h6⟩ := h
-  refine ⟨?_, ?_, by simpa using h3, by simpa using h4, ?_, hasNameB_spec h6⟩
-  · cases hc : classOf w t with
-    | none => rw [hc] at h1; simp at h1
-    | some ct => rw [hc] at h1; exact ⟨ct, rfl, by simpa using h1⟩
-  · intro o c ho hc
-    have hlt : o < w.objs.length := classOf_lt hc
-    have := (List.all_eq_true.1 h2) o (List.mem_range.2 hlt)
-    simp only [Bool.or_eq_true, beq_iff_eq, hc, List.isEmpty_iff] at this
-    rcases this with h | h
-    · exact absurd h ho
-    · exact h
-  · intro n hn
-    have := (List.all_eq_true.1 h5) n hn
-    simp only [Bool.and_eq_true, bne_iff_ne, ne_eq] at this
-    exact ⟨hasNameB_spec this.1.1, objNameB_spec this.1.2, this.2⟩
-
-theorem objOnlyB_spec {w : PWorld} {s : PathSpec} (h : objOnlyB w s = true) : ObjOnly w s := by
-  intro n hn c hc
-  have := (List.all_eq_true.1 ((List.all_eq_true.1 h) n hn)) c hc
-  simpa using this
-
-/-! ### the oracle's read set is the walk of the theorems -/
-
-/-- `readPairs` of the specification (PathsSpec.lean: what the oracle calls "touched") is `depsFrom`,
-the read set the theorems are stated with -/
-theorem readPairs_eq_depsFrom (w : PWorld) (leaf : Name) (hleaf : leaf ≠ "param") (hl : HasName w leaf) :
-    ∀ (path : List Name) (cur : Oid), cur < w.objs.length → (∀ n ∈ path, HasName w n ∧ ObjName w n) →
-    readPairs w cur ⟨path, leaf⟩ = depsFrom w cur path leaf := by
-  intro path
-  induction path with
-  | nil =>
-    intro cur hc _
-    obtain ⟨v, hv⟩ := hl cur hc
-    simp [readPairs, walk, leafReads, hleaf, hv, depsFrom]
-  | cons n rest ih =>
-    intro cur hc hall
-    obtain ⟨v, hv⟩ := (hall n (by simp)).1 cur hc
-    have hrest : ∀ x ∈ rest, HasName w x ∧ ObjName w x := fun x hx => hall x (List.mem_cons_of_mem _ hx)
-    cases v with
-    | none => simp [readPairs, walk, leafReads, hv, depsFrom]
-    | int i => simp [readPairs, walk, leafReads, hv, depsFrom]
-    | ref o =>
-      have ho : o < w.objs.length := by
-        rcases (hall n (by simp)).2 cur _ hv with h | ⟨o', h, hlt⟩
-        · cases h
-        · cases h; exact hlt
-      have := ih o ho hrest
-      simp only [readPairs, walk, leafReads, hv, depsFrom] at this ⊢
-      simp only [List.map_cons, List.cons_append, this]
 
 end ParamVerif.Depends
